@@ -238,6 +238,7 @@ theorem denote_semilinear {cj : K → K} (hc : IsConj cj) (t : Term K) :
     simp only [parity, Option.some.injEq] at hb; subst hb
     simp only [denote, twist, conj_lincomb hc]; rfl
 
+open Old in
 theorem sumsq_smul (a : Rat) (x : List Rat) : sumsq (smul a x) = a * a * sumsq x := by
   induction x with
   | nil => simp [sumsq, smul]
